@@ -14,7 +14,56 @@ use tungstenite::Message;
 use vcore::json::{self as vjson, J};
 use vcore::{Args, Report, SplitMix};
 
+/// Identifiers whose bytes are JSON structure / escape characters: payload that *looks like* structure to anything that
+/// scans the text without parsing it (the nesting guard in front of the deserialiser; seeded C15c desynchronised it with a
+/// string ending in an escaped backslash and then counted brackets inside later strings).
+fn gen_structural_id(r: &mut SplitMix) -> [u8; 20] {
+    let mut a = [0u8; 20];
+    let fill: &[u8] = match r.below(5) {
+        0 => b"[",
+        1 => b"{",
+        2 => b"[{",
+        3 => b"\\",
+        _ => b"\"[{]}",
+    };
+    for x in a.iter_mut() {
+        *x = *r.pick(fill);
+    }
+    match r.below(4) {
+        0 => a[19] = b'\\',
+        1 => {
+            a[18] = b'\\';
+            a[19] = b'\\';
+        }
+        2 => {
+            a[18] = b'\\';
+            a[19] = b'"';
+        }
+        _ => {}
+    }
+    a
+}
+
+fn gen_structural_sdp(r: &mut SplitMix) -> String {
+    let mut s = String::new();
+    for _ in 0..(1 + r.usize(3)) {
+        let run = 8 + r.usize(50);
+        let c = *r.pick(&['[', '{', '[', '{', ']', '}', '"', '\\']);
+        for _ in 0..run {
+            s.push(c);
+        }
+        if r.chance(1, 3) {
+            s.push_str("v=0 ");
+        }
+    }
+    s.push_str(*r.pick(&["\\", "\\\\", "\\\"", "\"", "", "\\u005c", "]"]));
+    s
+}
+
 fn gen_id(r: &mut SplitMix) -> [u8; 20] {
+    if r.chance(1, 4) {
+        return gen_structural_id(r);
+    }
     match r.below(6) {
         0 => [0; 20],
         1 => [0xff; 20],
@@ -33,6 +82,9 @@ fn gen_id(r: &mut SplitMix) -> [u8; 20] {
 
 fn gen_sdp(r: &mut SplitMix, big: bool) -> String {
     let alphabet: Vec<char> = vec!['v', '=', '0', ' ', '\r', '\n', '"', '\\', '/', '\u{0}', '\u{1}', '\u{8}', '\u{c}', '\u{1f}', '\u{7f}', 'é', '\u{2028}', '\u{2029}', '𝕊', '😀', '\u{ffff}', '{', '}', '[', ']', ':', ','];
+    if !big && r.chance(1, 4) {
+        return gen_structural_sdp(r);
+    }
     let len = if big { 20_000 + r.usize(20_000) } else { r.usize(60) };
     (0..len).map(|_| *r.pick(&alphabet)).collect()
 }
